@@ -111,6 +111,20 @@ def matrix():
     # only subclasses of Exception may be declared
     for cls, ok in (("NotE", False), ("Int", False), ("Str", False), ("K", False), ("E2", True), ("Exception", True)):
         out.append(("declare/%s" % cls, PRELUDE + "def ff(x: Int) -> Int raise [%s] => x\nprint(ff(0))\n" % cls, "accept" if ok else "reject", (["0"], "ok") if ok else None))
+    # lists with several entries: every entry must descend from Exception, wherever it stands; any entry may cover
+    import itertools
+    good, bad = ["E1", "E2", "E3", "Exception"], ["NotE", "Int", "K"]
+    for n in (2, 3):
+        for combo in itertools.product(good + bad, repeat=n):
+            if len(set(combo)) < n or (n == 3 and sum(c in bad for c in combo) != 1):
+                continue
+            ok_ = all(c in good for c in combo)
+            out.append(("declare-list/%s" % "-".join(combo), PRELUDE + "def ff(x: Int) -> Int raise [%s] => x\nprint(ff(0))\n" % ", ".join(combo),
+                        "accept" if ok_ else "reject", (["0"], "ok") if ok_ else None))
+    for combo in (("E3", "E1"), ("E1", "E3"), ("E3", "Exception"), ("E3", "E2")):
+        covered = any(c in ANC["E1"] for c in combo)
+        out.append(("cover-by-list/%s" % "-".join(combo), PRELUDE + "def ff(x: Int) -> Int raise [%s] =>\n    def r: Int := g1(x)\n    r\nprint(ff(0))\n" % ", ".join(combo),
+                    "accept" if covered else "reject", (["0"], "ok") if covered else None))
     # top level is unchecked
     out.append(("top-level/call", PRELUDE + "print(g1(0))\n", "accept", (["0"], "ok")))
     return out
@@ -128,7 +142,7 @@ def run(chk):
     scope_common.run_scope(chk, ["raise"], "Raise", 60 if thorough else 14, 6 if thorough else 4)
     cases = matrix()
     if not thorough:
-        keep = [c for c in cases if "/init/" in c[0] or c[0].startswith(("raise-", "declare/", "top-level", "after-handle", "inside-arm", "handle-in-arm"))]
+        keep = [c for c in cases if "/init/" in c[0] or c[0].startswith(("raise-", "declare/", "declare-list/", "cover-by-list/", "top-level", "after-handle", "inside-arm", "handle-in-arm"))]
         rest = [c for c in cases if c not in keep]
         cases = keep + chk.rng.sample(rest, min(len(rest), 120))
     res = sweep.transpile(chk, [c[1] for c in cases], annotate_both=False)
@@ -140,12 +154,12 @@ def run(chk):
         if got == "crash":
             why = "%s: the checker crashes" % label
         elif exp == "reject" and got == "accept":
-            why = "%s: an uncovered raise is ACCEPTED" % label
+            why = ("%s: a class that does not descend from Exception is ACCEPTED in a raise list" if label.startswith("declare") else "%s: an uncovered raise is ACCEPTED") % label
         elif exp == "accept" and got == "reject" and scope_common.impl_class(r[0]) == "reject Other":
             stats["inconclusive_other_type_error"] = stats.get("inconclusive_other_type_error", 0) + 1   # inference limitation (finding class of C05), not a raise verdict
         elif exp == "accept" and got == "reject":
             why = "%s: a declared or handled raise is REJECTED: %s" % (label, " ".join(r[0][1][0].split())[:200])
-        elif exp == "reject" and label.split("/")[0] != "declare" and scope_common.impl_class(r[0]) != "reject Raise":
+        elif exp == "reject" and label.split("/")[0] not in ("declare", "declare-list") and scope_common.impl_class(r[0]) != "reject Raise":
             why = "%s: rejected, but not for the uncovered raise: %s" % (label, " ".join(r[0][1][0].split())[:200])
         else:
             stats["accept_ok" if got == "accept" else "reject_ok"] += 1
